@@ -238,6 +238,128 @@ def glue_and_replay(F, seed):
                 F.check("C08", f"replay/methods{tag}", False, f"{type(e).__name__}: {str(e)[:160]}")
 
 
+def sympy_vs_object_glue(F, systems=None):
+    """Glue contract of the SymPy backend, for all values (the coordinates are SymPy symbols): every method of a SymPy vector returns what
+    the object backend returns when it runs the same compute functions with the same `lib` on the same symbols - same coordinate
+    system, flavor and stored expressions.  (The object backend's glue is decided by C05/C04/C14 on opaque tokens.)"""
+    import numpy
+    import sympy
+    import vector
+    from vector._lib import SympyLib
+    import vector.backends.object as OB
+    from .. import arrays as AR
+    stats = dict(evaluated=0, not_evaluable=0)
+    saved = (OB.VectorObject.lib,)
+    OB.VectorObject.lib = SympyLib()
+    OCLS = {(2, False): OB.VectorObject2D, (3, False): OB.VectorObject3D, (4, False): OB.VectorObject4D,
+            (2, True): OB.MomentumObject2D, (3, True): OB.MomentumObject3D, (4, True): OB.MomentumObject4D}
+    SCLS = {(2, False): vector.VectorSympy2D, (3, False): vector.VectorSympy3D, (4, False): vector.VectorSympy4D,
+            (2, True): vector.MomentumSympy2D, (3, True): vector.MomentumSympy3D, (4, True): vector.MomentumSympy4D}
+    AZ = {"xy": OB.AzimuthalObjectXY, "rhophi": OB.AzimuthalObjectRhoPhi}
+    LO = {"z": OB.LongitudinalObjectZ, "theta": OB.LongitudinalObjectTheta, "eta": OB.LongitudinalObjectEta}
+    TE = {"t": OB.TemporalObjectT, "tau": OB.TemporalObjectTau}
+
+    def mk(s, mom, suffix):
+        names = AR.names_of(s)
+        syms = [sympy.Symbol(n + suffix, real=True) for n in names]
+        sv = SCLS[(len(s) + 1, mom)](**{(AR.MOM.get(n, n) if mom else n): x for n, x in zip(names, syms)})
+        kw = dict(azimuthal=AZ[s[0]](syms[0], syms[1]))
+        if len(s) >= 2:
+            kw["longitudinal"] = LO[s[1]](syms[2])
+        if len(s) >= 3:
+            kw["temporal"] = TE[s[2]](syms[3])
+        return sv, OCLS[(len(s) + 1, mom)](**kw)
+
+    points = []
+
+    def same_expr(a, b):
+        if isinstance(a, (bool, numpy.bool_)) or isinstance(b, (bool, numpy.bool_)):
+            return bool(a) == bool(b)
+        try:
+            if a == b:
+                return True
+            # different expressions: they must still denote the same number on the regular domain (three regular points; bounded)
+            stats["numeric_fallback"] = stats.get("numeric_fallback", 0) + 1
+            for sub in points:
+                x, y = complex(sympy.N(a.subs(sub), 30)), complex(sympy.N(b.subs(sub), 30))
+                if not (abs(x.imag) < 1e-12 and abs(y.imag) < 1e-12 and AR.close(x.real, y.real, 1e-12, 1e-12)):
+                    return False
+            return True
+        except Exception:
+            return False
+
+    def compare(tag, f, sargs, oargs):
+        try:
+            with numpy.errstate(all="ignore"):
+                got = f(*sargs)
+        except Exception:
+            stats["not_evaluable"] += 1
+            return
+        try:
+            with numpy.errstate(all="ignore"):
+                exp = f(*oargs)
+        except Exception as e:
+            stats["not_evaluable"] += 1       # the object backend cannot run this operation on symbols: no reference
+            return
+        stats["evaluated"] += 1
+        if isinstance(exp, vector.Vector):
+            ok = isinstance(got, vector.Vector) and AR.sysof(got) == AR.sysof(exp) and isinstance(got, vector.Momentum) == isinstance(exp, vector.Momentum)
+            F.check("C08", f"sympy-glue/result-system-and-flavor/{tag}", ok, dict(got=type(got).__name__ + str(AR.sysof(got) if isinstance(got, vector.Vector) else ""), expected=type(exp).__name__ + str(AR.sysof(exp))))
+            if ok:
+                for n in AR.names_of(AR.sysof(exp)):
+                    F.check("C08", f"sympy-glue/{n}/{tag}", same_expr(getattr(got, n), getattr(exp, n)), dict(got=str(getattr(got, n))[:160], expected=str(getattr(exp, n))[:160]))
+        elif isinstance(exp, tuple):
+            F.check("C08", f"sympy-glue/value/{tag}", isinstance(got, tuple) and len(got) == len(exp) and all(same_expr(a, b) for a, b in zip(got, exp)), dict(got=str(got)[:160], expected=str(exp)[:160]))
+        else:
+            F.check("C08", f"sympy-glue/value/{tag}", not isinstance(got, vector.Vector) and same_expr(got, exp), dict(got=str(got)[:160], expected=str(exp)[:160]))
+
+    try:
+        allsys = list(AR.systems())
+        for s in (systems or allsys):
+            d = len(s) + 1
+            for mom in (False, True):
+                sv, ov = mk(s, mom, "")
+                tag0 = f"[{','.join(s)}|{'mom' if mom else 'gen'}]"
+                rng = random.Random(hash((tuple(s), mom)) & 0xFFFFF)
+                points[:] = [{sympy.Symbol(n, real=True): v_ for n, v_ in AR.one(s, rng).items()} for _ in range(3)]
+                for name, f in E_unary(d, mom):
+                    compare(f"{name}{tag0}", f, (sv,), (ov,))
+                for s2 in allsys:
+                    d2 = len(s2) + 1
+                    ops2 = E_binary(d, d2)
+                    if not ops2:
+                        continue
+                    sw, ow = mk(s2, not mom if (hash((s, s2)) & 1) else mom, "_2")
+                    points[:] = []
+                    for _ in range(3):
+                        p1, p2 = AR.one(s, rng), AR.one(s2, rng)
+                        sub = {sympy.Symbol(n, real=True): v_ for n, v_ in p1.items()}
+                        sub.update({sympy.Symbol(n + "_2", real=True): v_ for n, v_ in p2.items()})
+                        points.append(sub)
+                    for name, f in ops2:
+                        compare(f"{name}{tag0}x[{','.join(s2)}]", f, (sv, sw), (ov, ow))
+    finally:
+        OB.VectorObject.lib = saved[0]
+    return stats
+
+
+def E_unary(d, mom):
+    from .. import engined as E
+    return E.unary_ops(d, mom)
+
+
+def E_binary(d, d2):
+    from .. import engined as E
+    return E.binary_ops(d, d2)
+
+
+def _sympy_glue_worker(s):
+    from .. import engined as E
+    F = E.Fails()
+    st = sympy_vs_object_glue(F, [s])
+    return F.n, F.bad, st
+
+
 def _glue_worker(seed):
     from .. import engined as E
     F = E.Fails()
@@ -253,11 +375,18 @@ def main(argv):
     # the contract of spatial.mag instantiated in the deltaangle jobs is re-discharged here (self-contained check)
     res += C.pool_map(enginea.run_variant_job, [("spatial", "mag", sig, "C08") for pk, n, m in ops.all_modules() if (pk, n) == ("spatial", "mag") for sig in m.dispatch_map])
     n_, bad_ = C.pool_map(_glue_worker, [C.seed(), C.seed() + 1])[0]
+    from .. import arrays as AR
+    gres = C.pool_map(_sympy_glue_worker, list(AR.systems()))
+    n_ += sum(r[0] for r in gres)
+    bad_ = list(bad_) + [b for r in gres for b in r[1]]
+    gstats = dict(evaluated=sum(r[2]["evaluated"] for r in gres), not_evaluable=sum(r[2]["not_evaluable"] for r in gres), numeric_fallback=sum(r[2].get("numeric_fallback", 0) for r in gres))
+    if gstats["evaluated"] < 5000:
+        bad_.append(("C08", "C08/sympy-glue/vacuity", f"only {gstats['evaluated']} method calls could be evaluated on both backends"))
     extra = dict(id="C08/sympy-backend", pk="sympy", mod="backend", sig="", status="proved" if not bad_ else "refuted", t=0, cases=1, refuter_points=0, engine_crosschecks=0, obligations=[])
     failed = {oid for p, oid, d in bad_}
     for p, oid, d in bad_:
         extra["obligations"].append(dict(id=oid, kind="value", status="refuted", by="expression identity / numeric replay on the real SymPy backend", t=0, counterexample=dict(detail=d)))
-    extra["obligations"].append(dict(id="C08/sympy-backend/contracts-evaluated", kind="value", status="proved", by=f"{n_ - len(bad_)} table / glue / replay contracts on the real SymPy backend", t=0))
+    extra["obligations"].append(dict(id="C08/sympy-backend/contracts-evaluated", kind="value", status="proved", by=f"{n_ - len(bad_)} table / glue / replay contracts on the real SymPy backend; method glue: {gstats}", t=0))
     return enginea_prop.run("C08", [], "DESIGN 4/C08", extra_results=res + [extra, cauchy_schwarz_lemma()], t_start=t_start,
                             extra_assumptions=["SymPy's own elementary functions denote the same real functions as NumPy's (trusted)",
                                                "regular domain of the statement: every operand off the z axis, forward (t > 0) and timelike; tau-stored operands have tau > 0",
